@@ -1,0 +1,10 @@
+//go:build verif && verif_canary
+
+package strategy
+
+import "time"
+
+// ManageCanaryStatusForVerif evaluates the canary status at an explicit instant.
+func ManageCanaryStatusForVerif(annotations map[string]string, params *Parameters, now time.Time) *Result {
+	return manageCanaryStatus(annotations, params, now)
+}
